@@ -12,3 +12,4 @@ INVARIANT RemovedStops
 PROPERTY NoOpHarmless
 PROPERTY PinsetKept
 PROPERTY UnackedFaultyNotCommitted
+INVARIANT StoppedCanRestart
